@@ -1,0 +1,53 @@
+//go:build verif
+
+package diags
+
+// Contracts checked by /verif/engine (govc). Comment-only file: no code is compiled from it.
+
+// C06 / C02: position ranges. appendPosition extends the last range by one column or starts a new one;
+// AddOffset shifts every range by exactly (line, column); Lines() encloses every range.
+
+//@ func appendPosition [C06, C02]
+//@   ensures len(result) >= 1 && (len(result) == len(src) || len(result) == len(src) + 1)
+//@   ensures result[len(result)-1].Line == line && result[len(result)-1].LastColumn == column
+//@   ensures len(result) == len(src) + 1 ==> result[len(result)-1].FirstColumn == column
+//@   ensures len(result) == len(src) ==> len(src) >= 1 && result[len(result)-1].FirstColumn == old(src[len(src)-1].FirstColumn) &&
+//@              old(src[len(src)-1].Line) == line && old(src[len(src)-1].LastColumn) + 1 == column
+//@   ensures forall i int :: 0 <= i && i < len(src) - 1 ==> result[i] == old(src[i])
+//@   ensures len(result) == len(src) + 1 ==> forall i int :: 0 <= i && i < len(src) ==> result[i] == old(src[i])
+//@   safe
+
+//@ func PositionRanges.AddOffset [C06]
+//@   ensures forall i int :: 0 <= i && i < len(prs) ==> prs[i].Line == old(prs[i].Line) + line &&
+//@              prs[i].FirstColumn == old(prs[i].FirstColumn) + column && prs[i].LastColumn == old(prs[i].LastColumn) + column
+//@   loop 1 invariant 0 <= iter && iter <= len(prs)
+//@   loop 1 invariant forall i int :: 0 <= i && i < iter ==> prs[i].Line == old(prs[i].Line) + line &&
+//@              prs[i].FirstColumn == old(prs[i].FirstColumn) + column && prs[i].LastColumn == old(prs[i].LastColumn) + column
+//@   loop 1 invariant forall i int :: iter <= i && i < len(prs) ==> prs[i] == old(prs[i])
+//@   safe
+
+//@ func PositionRanges.Lines [C06, C02]
+//@   ensures len(prs) == 0 ==> lr.First == 0 && lr.Last == 0
+//@   ensures forall i int :: 0 <= i && i < len(prs) ==> lr.First <= prs[i].Line && prs[i].Line <= lr.Last
+//@   ensures len(prs) > 0 ==> (exists i int :: 0 <= i && i < len(prs) && lr.First == prs[i].Line) && (exists i int :: 0 <= i && i < len(prs) && lr.Last == prs[i].Line)
+//@   loop 1 invariant 0 <= iter && iter <= len(prs)
+//@   loop 1 invariant iter == 0 ==> lr.First == 0 && lr.Last == 0
+//@   loop 1 invariant forall i int :: 0 <= i && i < iter ==> lr.First <= prs[i].Line && prs[i].Line <= lr.Last
+//@   loop 1 invariant iter > 0 ==> (exists i int :: 0 <= i && i < iter && lr.First == prs[i].Line) && (exists i int :: 0 <= i && i < iter && lr.Last == prs[i].Line)
+//@   safe
+
+//@ func countLeadingSpace [C06, C02]
+//@   ensures 0 <= i && i <= len(line)
+//@   loop 1 invariant 0 <= i && i <= iterpos && iterpos <= len(line)
+//@   safe
+
+// The positions of a field are never empty (reporters take slices.Max over their lines) and computing them never
+// indexes outside the line table or the value.
+//@ func NewPositionRange [C06, C02]
+//@   requires val != nil && 1 <= val.Line && 1 <= val.Column && 1 <= minColumn
+//@   ensures len(offsets) >= 1
+//@   loop 1 invariant lineIndex >= 1 && columnIndex >= 1 && 0 <= needIndex && needIndex < len(val.Value) && need == val.Value[needIndex]
+//@   loop 1 invariant len(offsets) > 0 ==> lineIndex >= 2
+//@   loop 2 invariant lineIndex >= 1 && lineIndex <= len(lines) && columnIndex >= 1 && 0 <= needIndex && needIndex < len(val.Value) && need == val.Value[needIndex]
+//@   loop 2 invariant len(offsets) > 0 ==> lineIndex >= 1
+//@   safe
